@@ -333,7 +333,7 @@ def gen_script(rng, nclients=None, policy=None, track=None, auth=None, length=No
                 stalled.pop(c, None)
             elif r2 < 0.8 and connected:
                 c = rng.choice(sorted(connected))
-                lines.append("disconnect %d" % c)
+                lines.append("disconnect %d%s" % (c, " slow" if rng.random() < 0.3 else ""))
                 lines.append("cframe %d" % c)            # the client notices the disconnect before any reconnect
                 del connected[c]
                 stalled.pop(c, None)
